@@ -90,3 +90,100 @@ def m1(proj, rep):
             rep.violation('M2', FN, f'`.transpose({name})` is applied {len(calls)} times with the computed permutation `{name}`: the second application '
                           f'undoes the first only if `{name}` is an involution; use np.argsort({name})', m, calls[1])
     return n
+
+
+# ------------------------------------------------------------------------------------------------ M3
+RULE_M3 = ('M3: Born rule and collapse structure of measure_quantum_vector: (a) the outcome probabilities are the SQUARED modulus of the grouped state '
+           'summed over the unmeasured groups (`reduce_dim`), never over the kept ones; (b) the outcome is drawn with `p=prob`; (c) the helper '
+           'classifies the measured qubits as the kept groups (kind 1 at `index`, keep_dim = groups of kind 1, reduce_dim = kind 0); (d) the '
+           'post-measurement state copies exactly the selected slice of the input (same index object on both sides, zeros elsewhere) and divides it '
+           'by sqrt(prob[outcome]) of the SAME sampled outcome.')
+
+
+def m3(proj, rep):
+    rep.rule('M3', RULE_M3)
+    f = proj.func('numqi.sim.state.measure_quantum_vector')
+    m = f.module
+    rep.touch(m)
+    n = 0
+
+    def t(e):
+        return ast.unparse(e).replace(' ', '')
+    # unpacking names from the helper
+    unp = next((s for s in f.node.body if isinstance(s, ast.Assign) and isinstance(s.targets[0], ast.Tuple) and '_measure_quantum_vector_hf0' in t(s.value)), None)
+    if unp is None or len(unp.targets[0].elts) != 3:
+        rep.undecided('M3', f.qual, 'helper unpacking (shape, keep_dim, reduce_dim) not found', m, f.node, text='helper')
+        return 0
+    shp, keep, red = [e.id for e in unp.targets[0].elts]
+    # (c) helper roles
+    h = proj.func('numqi.sim.state._measure_quantum_vector_hf0')
+    n += 1
+    hs = t(h.node)
+    ret = next((r for r in ast.walk(h.node) if isinstance(r, ast.Return)), None)
+    kind_ok = 'kind[list(index)]=1' in hs
+    kd = next((s for s in h.node.body if isinstance(s, ast.Assign) and isinstance(s.targets[0], ast.Name) and s.targets[0].id == 'keep_dim'), None)
+    rd = next((s for s in h.node.body if isinstance(s, ast.Assign) and isinstance(s.targets[0], ast.Name) and s.targets[0].id == 'reduce_dim'), None)
+    if ret is None or kd is None or rd is None or t(ret.value) != '(shape,keep_dim,reduce_dim)':
+        rep.undecided('M3', h.qual, 'helper structure not recognised', m, h.node, text='helper roles')
+        n -= 1
+    elif kind_ok and 'ify[0]==1' in t(kd.value) and 'ify[0]==0' in t(rd.value) and 'enumerate(z0)' in t(kd.value) and 'enumerate(z0)' in t(rd.value):
+        rep.ok('M3', h.qual, 'measured qubits have kind 1; keep_dim = kind-1 groups, reduce_dim = kind-0 groups', m, kd)
+    else:
+        rep.violation('M3', h.qual, f'keep_dim `{t(kd.value)[-20:]}` / reduce_dim `{t(rd.value)[-20:]}` / `kind[list(index)] = 1` do not classify the measured qubits as the '
+                      f'kept groups: the marginal is taken over the wrong qubits', m, kd)
+    # (a) probabilities
+    probs = [s for s in ast.walk(f.node) if isinstance(s, ast.Assign) and isinstance(s.targets[0], ast.Name) and s.targets[0].id == 'prob']
+    for s in probs:
+        n += 1
+        x = t(s.value)
+        sq = '**2' in x and ('np.abs(' in x or 'abs(' in x)
+        if not sq:
+            rep.violation('M3', f'{f.qual}[prob]', f'`{x[:70]}` is not a squared modulus: the outcome probabilities are not Born probabilities', m, s)
+        elif '.sum(' in x:
+            if f'.sum(axis={red})' in x:
+                rep.ok('M3', f'{f.qual}[prob]', f'|psi|^2 summed over {red}', m, s)
+            elif f'.sum(axis={keep})' in x:
+                rep.violation('M3', f'{f.qual}[prob]', f'`{x[:70]}` sums over the MEASURED groups `{keep}`: the marginal of the unmeasured qubits is returned', m, s)
+            else:
+                rep.undecided('M3', f'{f.qual}[prob]', f'`{x[:70]}`: summation axis not recognised', m, s)
+                n -= 1
+        else:
+            rep.ok('M3', f'{f.qual}[prob]', '|psi|^2 (no unmeasured group)', m, s)
+    # (b) draw
+    n += 1
+    draw = next((s for s in ast.walk(f.node) if isinstance(s, ast.Assign) and '.choice(' in t(s.value)), None)
+    if draw is None:
+        rep.undecided('M3', f'{f.qual}[draw]', 'outcome draw not found', m, f.node, text='draw')
+        n -= 1
+    else:
+        out = draw.targets[0].id
+        if 'p=prob' in t(draw.value) and 'len(prob)' in t(draw.value):
+            rep.ok('M3', f'{f.qual}[draw]', 'outcome ~ choice(len(prob), p=prob)', m, draw)
+        else:
+            rep.violation('M3', f'{f.qual}[draw]', f'`{t(draw.value)}` does not draw the outcome from `prob`', m, draw)
+        # (d) collapse
+        n += 1
+        col = next((s for s in ast.walk(f.node) if isinstance(s, ast.Assign) and isinstance(s.targets[0], ast.Subscript) and isinstance(s.value, ast.BinOp)
+                    and isinstance(s.value.op, ast.Div)), None)
+        if col is None:
+            rep.undecided('M3', f'{f.qual}[collapse]', 'collapse assignment not found', m, f.node, text='collapse')
+            n -= 1
+        else:
+            lhs_idx, rhs = t(col.targets[0].slice), col.value
+            rhs_l, rhs_r = t(rhs.left), t(rhs.right)
+            buf = col.targets[0].value.id if isinstance(col.targets[0].value, ast.Name) else None
+            bdef = next((s for s in f.node.body if isinstance(s, ast.Assign) and isinstance(s.targets[0], ast.Name) and s.targets[0].id == buf), None)
+            same_idx = isinstance(rhs.left, ast.Subscript) and t(rhs.left.slice) == lhs_idx
+            norm_ok = rhs_r in (f'np.sqrt(prob[{out}])', f'prob[{out}]**0.5', f'np.sqrt(prob[{out}].item())')
+            zeros_ok = bdef is not None and t(bdef.value).startswith(('np.zeros_like(', 'np.zeros('))
+            if same_idx and norm_ok and zeros_ok:
+                rep.ok('M3', f'{f.qual}[collapse]', f'{buf}[sel] = q1[sel] / sqrt(prob[{out}]) on a zero buffer', m, col)
+            elif not norm_ok:
+                rep.violation('M3', f'{f.qual}[collapse]', f'the selected slice is divided by `{rhs_r}`, not by sqrt(prob[{out}]) of the sampled outcome: the '
+                              f'post-measurement state is not normalised', m, col)
+            elif not same_idx:
+                rep.violation('M3', f'{f.qual}[collapse]', f'`{t(col)[:80]}` reads a different slice than it writes', m, col)
+            else:
+                rep.violation('M3', f'{f.qual}[collapse]', f'the buffer `{buf}` is not zero-initialised: amplitudes of the other outcomes survive', m, col)
+    rep.count('M3.obligations', n)
+    return n
